@@ -72,6 +72,13 @@ def stmt_code(s, ctx):
         val = ["PUSH0"] if s[1] == "CALL" else []
         return ([("push", 32), "PUSH0", "PUSH0", "PUSH0"] + val + expr_code(s[2]) + [("push", 0xFFFF), s[1]]
                 + [("push", ctx.out_slot()), "MSTORE", "PUSH0", "MLOAD", ("push", ctx.out_slot()), "MSTORE"])
+    if k == "loop":  # ("loop", style, bound expr): i = 0; while (i < e) i++; out(i)   -- "while": the exit is the taken side of the JUMPI; "dowhile": the back edge is
+        top, ext = ctx.label(), ctx.label()
+        if s[1] == "while":
+            body = ["PUSH0", ("label", top)] + expr_code(s[2]) + ["DUP2", "LT", "ISZERO", ("ref", ext), "JUMPI", ("push", 1), "ADD", ("ref", top), "JUMP", ("label", ext)]
+        else:
+            body = ["PUSH0", ("label", top), ("push", 1), "ADD"] + expr_code(s[2]) + ["DUP2", "LT", ("ref", top), "JUMPI"]
+        return body + [("push", ctx.out_slot()), "MSTORE"]
     if k == "create_probe":  # code size of the account e before and after a CREATE (of a 1-byte contract) in this frame
         probe = expr_code(s[1]) + ["EXTCODESIZE", ("push", ctx.out_slot()), "MSTORE"]
         create = [("pushn", 4, 0x60015FF3), ("push", 224), "SHL", ("push", 0x1E00), "MSTORE", ("push", 4), ("push", 0x1E00), "PUSH0", "CREATE", "POP"]
@@ -129,6 +136,8 @@ def stmt_str(s):
         return f"callx({s[1]},{expr_str(s[2])})"
     if k == "create_probe":
         return f"create_probe({expr_str(s[1])})"
+    if k == "loop":
+        return f"loop_{s[1]}({expr_str(s[2])})"
     if k == "if":
         return f"if({expr_str(s[1])}){{{';'.join(stmt_str(t) for t in s[2])}}}"
     if k == "ifelse":
@@ -256,8 +265,14 @@ def statements(kind):
         S.append(("callx", "CALL", X))
         S.append(("callx", "STATICCALL", X))
         S.append(("create_probe", X))
+        # loops on a symbolic bound (cut by --loop: the paths that are reported must still be exact)
+        S.append(("loop", "while", ("AND", X, ("k", 7))))
+        S.append(("loop", "dowhile", ("AND", X, ("k", 7))))
+        S.append(("loop", "while", ("AND", Y, ("k", 3))))
     # branches
     bodies = [[("sstore", K0, K1)], [("mstore", 0, KMAX)], [("revert", 0, 32)], [("invalid",)], [("out", K1)]]
+    if full:
+        bodies = bodies + [[("tstore", K0, K1)]]
     for c in CONDS if full else CONDS[:2]:
         for b in bodies if full else bodies[:3]:
             S.append(("if", c, b))
